@@ -75,9 +75,10 @@ RECURSIVE Fields(_, _, _, _, _)
 Fields(d, t, j, force, PadFix) ==
   IF j > Len(d.fields) THEN t ELSE Fields(d, SawField(d, t, j, force, PadFix), j + 1, force, PadFix)
 
-(* the whole composite: emitted fields + repr *)
-EmitInfo(d, force, rustUnion, PadFix) ==
-  LET t1 == Fields(d, T0, 1, force, PadFix)
+(* the whole composite: emitted fields + repr.  tstart = the tracker before the first member: T0, or what  *)
+(* saw_vtable / saw_base left (TrackerCxx.tla)                                                              *)
+EmitFrom(d, tstart, force, rustUnion, PadFix) ==
+  LET t1 == Fields(d, tstart, 1, force, PadFix)
       packed0 == d.ispacked
       union == d.kind = "union"
       clay == [size |-> d.csize, align |-> d.calign]
@@ -116,6 +117,7 @@ EmitInfo(d, force, rustUnion, PadFix) ==
       packed |-> IF usepacked THEN clay.align ELSE 0,
       align |-> explicit]
 
+EmitInfo(d, force, rustUnion, PadFix) == EmitFrom(d, T0, force, rustUnion, PadFix)
 EmitRec(d, force, rustUnion, PadFix) == EmitInfo(InfoOf(d), force, rustUnion, PadFix)
 
 (* offsets rustc gives to the members of the C declaration *)
